@@ -152,6 +152,21 @@ CHECKS = {
         note="Synchronous logger only (as the statement says); the kernel is assumed to keep completed write() calls across abort().",
         technique=TECH,
     ),
+    "C12": dict(
+        engine="QtlPattern",
+        level="model_checking",
+        text="QtlPattern.tla transcribes docs/api/formatters.md as Format(tokens, type): literal text, placeholders, type conditionals, "
+             "optional attributes with removal of surrounding literal text, and Field(value, spec) for the three documented modes "
+             "(padding only, truncation only, truncate-and-pad; centre padding with the extra unit on the right). TLC checks on an "
+             "exhaustive small universe the width laws, the verbatim law (an untruncated value is a contiguous part of its field, the rest "
+             "is fill) and equality with a second, look-ahead formulation. Binding: token lists rendered to pattern text by the documented "
+             "syntax, formatted by the real PatternFormatter, TLC requires output = Format(tokens, type) for every case.",
+        design="5/C12",
+        note="Undocumented corners are not generated (absent non-optional attribute, ?N,M not surrounded by literal text, %{func}, %{time "
+             "process|boot}, token-less patterns, a leading U+FEFF in UTF-8 context strings); thread id / QThread pointer / formatted "
+             "times are taken from the library and Qt.",
+        technique="explicit TLA+ transcription of the documented rules checked by TLC + validation of recorded results of the real code against it",
+    ),
     "C15": dict(
         engine="QtlCategory",
         level="model_checking",
